@@ -202,7 +202,8 @@ def check(prop, tier, seed):
                 notes.append('generated-model tie (function classes): ' + gc_['status_validation'])
         for key_, fn_, props_ in (('plottable_data', gentie.gen_tie_plottable, ('C11',)), ('isi_lengths', gentie.gen_tie_isi_lengths, ('C15',)),
                                   ('interval_lists', gentie.gen_tie_interval_lists, ('C05', 'C10', 'C11')),
-                                  ('spikes_helpers', gentie.gen_tie_api, ('C13', 'C20'))):
+                                  ('spikes_helpers', gentie.gen_tie_api, ('C13', 'C20')), ('default_thresh', gentie.gen_tie_thresh, ('C15',)),
+                                  ('spiketrain_methods', gentie.gen_tie_train, ('C18', 'C19'))):
             if prop in props_:
                 try:
                     gen_res[key_] = fn_(tier, random.Random(seed * 43 + 17))
@@ -392,7 +393,9 @@ PYX_STRIDE = {'C07': 3, 'C18': 2}
 EXTRA = {}
 KNOWN_EXTRA = {}
 _API_TRUST = ['Gen/Api.lean (reconcile_spike_trains, reconcile_spike_trains_bi, merge_spike_trains generated from pyspike/spikes.py by harness/py2lean_api.py): trusted there are that translator and Gen/PreludeApi.lean, which MODELS the SpikeTrain constructor and np.unique / np.sort / np.concatenate / min / max by their documented meaning; validated on every run against the real functions (coverage.generated_model.spikes_helpers)']
-PROP_TRUST = {'C13': _API_TRUST, 'C20': _API_TRUST}
+_TRAIN_TRUST = ['Gen/ApiTrain.lean (SpikeTrain.get_spikes_non_empty, copy, sort generated from pyspike/SpikeTrain.py by harness/py2lean_api.py; np.insert / np.unique / np.sort by their documented meaning in Gen/PreludeApi.lean; validated on every run, coverage.generated_model.spiketrain_methods)']
+PROP_TRUST = {'C13': _API_TRUST, 'C20': _API_TRUST, 'C18': _TRAIN_TRUST, 'C19': _TRAIN_TRUST,
+              'C15': ['Gen/ApiThresh.lean (default_thresh, default_thresh_ generated from pyspike/isi_lengths.py by harness/py2lean_api.py; the generated functions return the radicand of the final np.sqrt, which is outside the rationals): trusted there is that translator; validated on every run (coverage.generated_model.default_thresh)']}
 
 
 def replay(path):
